@@ -7,6 +7,7 @@ import (
 	"encoding/json"
 	"flag"
 	"fmt"
+	"golang.org/x/tools/go/ssa"
 	"os"
 	"os/exec"
 	"path/filepath"
@@ -246,6 +247,42 @@ func runProperty(prop string, pe *PropEntry, kf *KnownFindings, repo, vd string,
 		}
 		u := GenerateUnit(w, sp, opts)
 		units = append(units, u)
+	}
+	// call sites of the units' functions (those with preconditions) in functions without a contract: the precondition is an
+	// assumption there; sites not in the committed list are undischarged precondition obligations
+	{
+		callees := map[*ssa.Function]bool{}
+		for _, un := range unitNames {
+			if sp := byShort[un]; sp != nil && !sp.Extern && len(sp.Requires) > 0 {
+				if fn := w.ResolveSpecFunc(sp); fn != nil {
+					callees[fn] = true
+				}
+			}
+		}
+		sites := w.assumedCallSites(callees)
+		var base struct {
+			Sites map[string][]string `json:"sites"`
+		}
+		_ = loadJSON(filepath.Join(vd, "assumed_callsites.json"), &base)
+		listed := map[string]bool{}
+		for _, s := range base.Sites[prop] {
+			listed[s] = true
+		}
+		if os.Getenv("GOVC_WRITE_CALLSITES") != "" {
+			// listing mode (tools/write_callsites.sh): print the sites and stop before solving
+			fmt.Printf("CALLSITES %s %s\n", prop, strings.Join(sites, " | "))
+			return res
+		} else {
+			for _, s := range sites {
+				if !listed[s] {
+					fail("pre:callsite:"+s, "call site of a contracted function with preconditions in a function that has no contract and is not listed in assumed_callsites.json: the precondition is not checked there ("+s+")")
+				}
+			}
+		}
+		if len(sites) > 0 {
+			res.Extra["preconditions_assumed_at_call_sites"] = map[string]interface{}{"sites": sites,
+				"note": "caller -> callee: the caller has no contract, so the callee's precondition is assumed at this call site (entry points, goroutine bodies, helpers); committed in /verif/assumed_callsites.json, a site not listed there is reported"}
+		}
 	}
 	for _, ln := range pe.Lemmas {
 		var found *LemmaSpec
